@@ -369,3 +369,26 @@ GROUPS["p3"] = [
       "        if let Some(mut parser) = parser {\n            if isolate_english {\n                parser = Box::new(IsolateEnglish::new(parser, doc_state.dict.clone()));\n            }\n            let fresh = Document::new(text, &parser, &doc_state.dict);\n            doc_state.document = fresh;\n        } else {\n            doc_lock.remove(url);\n        }\n",
       None),
 ]
+
+GROUPS["p3"] += [
+    # the dialect filter written functionally
+    E("p-c06-filter-collect", ["C06"], "harper-core/src/linting/spell_check.rs",
+      "        suggestions.retain(|v| {\n            self.dictionary\n                .get_word_metadata(v)\n                .unwrap()\n                .dialect\n                .is_none_or(|d| d == self.dialect)\n        });\n",
+      "        let suggestions: Vec<CharString> = suggestions\n            .into_iter()\n            .filter(|v| {\n                self.dictionary\n                    .get_word_metadata(v)\n                    .unwrap()\n                    .dialect\n                    .is_none_or(|d| d == self.dialect)\n            })\n            .collect();\n",
+      None),
+]
+GROUPS["g7"] += [
+    # the memo is filled before the dialect filter runs (the shape of seeded/C06)
+    E("c06-memo-before-filter", ["C06"], "harper-core/src/linting/spell_check.rs",
+      "        // Remove entries outside the configured dialect\n        suggestions.retain(|v| {",
+      "        self.word_cache.put(word.into(), suggestions.clone());\n\n        // Remove entries outside the configured dialect\n        suggestions.retain(|v| {",
+      "R-C06-dialect:cached_suggest_correct_spelling"),
+]
+
+GROUPS["g7"] += [
+    # dictionary equality that forgets letter case (the shape of seeded/C07)
+    E("c07-caseless-dict-hash", ["C07"], "harper-core/src/spell/merged_dictionary.rs",
+      ".for_each(|w| w.iter().for_each(|c| hasher.write_u32(*c as u32)));",
+      ".for_each(|w| w.iter().for_each(|c| hasher.write_u32(c.to_ascii_lowercase() as u32)));",
+      "R-C07-adopt:MergedDictionary::hash_dictionary"),
+]
